@@ -313,6 +313,29 @@ def run(ctx):
                f"`{unparse(trans)}` is not the exchange of the two selected entries", trans)
     else:
         ctx.ob("R-SIB", sw, "perm[sys]=perm[reversed sys]", None, "transposition statement not recognised", required=False)
+    # scalar dim on a vector: the side of total size 1 has local dimensions (1, 1), not (dim, 1/dim) -- otherwise every 1-D /
+    # column vector with a scalar dim is rejected as "dim does not divide" (F49)
+    scal = [nd for nd in walk_no_nested(sw.node) if isinstance(nd, ast.If) and "isinstance(dim, int)" in unparse(nd.test)]
+    if scal:
+        okv = False
+        for st in ast.walk(scal[0]):
+            if isinstance(st, ast.Assign) and isinstance(st.targets[0], ast.Subscript) and isinstance(st.targets[0].value, ast.Name) and st.targets[0].value.id == "dim" \
+                    and isinstance(st.value, ast.Constant) and st.value.value == 1:
+                sel = st.targets[0].slice
+                cmpn = [x for x in ast.walk(sel) if isinstance(x, ast.Compare) and len(x.ops) == 1 and isinstance(x.ops[0], ast.Eq)]
+                if cmpn and "rho_dims" in unparse(cmpn[0]) and any(isinstance(x, ast.Constant) and x.value == 1 for x in ast.walk(cmpn[0])):
+                    # must precede the divisibility raise
+                    raises = [r for r in ast.walk(scal[0]) if isinstance(r, ast.Raise)]
+                    okv = all(st.lineno < r.lineno for r in raises)
+            if isinstance(st, ast.IfExp) and isinstance(st.test, ast.Compare) and isinstance(st.test.ops[0], ast.Eq) and \
+                    any(isinstance(x, ast.Constant) and x.value == 1 for x in ast.walk(st.test)) and unparse(st.body).replace(" ", "") in ("[1,1]", "(1,1)"):
+                okv = True
+        ctx.ob("R-KIND", sw, "scalar dim: a side of total size 1 (vector input) gets local dimensions 1", okv,
+               "rows of the expanded table whose total is 1 are set to 1 before the divisibility test" if okv else
+               "the scalar expansion [dim, total/dim] is applied to a side of size 1 as well: for a 1-D or column vector total/dim = 1/dim is not an integer, "
+               "so swap(v, sys, d) raises InvalidDim for every vector", scal[0])
+    else:
+        ctx.ob("R-KIND", sw, "scalar dim: a side of total size 1 (vector input) gets local dimensions 1", None, "no isinstance(dim, int) branch", required=False)
     for p in ("sys", "dim", "row_only"):
         r_live(ctx, sw, p)
 
